@@ -14,6 +14,7 @@ import (
 	"time"
 
 	"github.com/brutella/hc/crypto"
+	"github.com/brutella/hc/hap"
 )
 
 // pauseReader delivers `head`, runs `between` once, then delivers `tail`.
@@ -116,5 +117,115 @@ func gatedDecrypt(c *Ctx, who string) {
 			c.Violate(who+": the peer cannot decrypt what the session encrypted while a frame was arriving", id, in, "frames in order", fmt.Sprintf("%d plaintext bytes, not authenticated", len(pt)))
 		}
 		c.Count(id, true, "stream:gated-decrypt", fmt.Sprintf("gated-decrypt:cut<=3=%v", cut <= 3))
+	}
+}
+
+// sourceReuse: Encrypt takes an io.Reader and consumes it. A caller that keeps ONE buffer for its outgoing messages
+// (write a message into it, Encrypt it, write the next one …) must see each message sent once: what Encrypt has sealed is
+// gone from the source.
+func sourceReuse(c *Ctx, who string) {
+	for i := 0; i < c.Pick(6, 60); i++ {
+		id := c.CaseID("source-reuse", i)
+		if c.Skip(id) {
+			continue
+		}
+		r := c.CaseRng("source-reuse", i)
+		var shared [32]byte
+		copy(shared[:], randBytes(r, 32))
+		acc, err := crypto.NewSecureSessionFromSharedKey(shared)
+		if err != nil {
+			fatal("session: %v", err)
+		}
+		peer := newRefControllerSession(shared[:])
+		var buf bytes.Buffer
+		var wire, want []byte
+		var sizes []int
+		for k := 0; k < 2+r.Intn(4); k++ {
+			m := randBytes(r, 1+r.Intn(2500))
+			sizes = append(sizes, len(m))
+			want = append(want, m...)
+			buf.Write(m)
+			rd, err := acc.Encrypt(&buf)
+			if err != nil {
+				c.Violate(who+": Encrypt fails on a valid message", id, sizes, "frames", err.Error())
+				break
+			}
+			b, _ := ioutil.ReadAll(rd)
+			wire = append(wire, b...)
+			if buf.Len() != 0 {
+				c.Violate(who+": Encrypt does not consume its source (a reused buffer sends its earlier messages again)", id,
+					map[string]interface{}{"source": "*bytes.Buffer", "message_sizes": sizes}, "source empty after Encrypt", fmt.Sprintf("%d bytes left", buf.Len()))
+				break
+			}
+		}
+		pt, _, ok := peer.DecryptFrames(wire)
+		if !ok || !bytes.Equal(pt, want) {
+			c.Violate(who+": the peer does not receive each message once (one buffer reused as the source of every Encrypt)", id,
+				map[string]interface{}{"source": "*bytes.Buffer, reused", "message_sizes": sizes}, fmt.Sprintf("%d bytes", len(want)), fmt.Sprintf("%d bytes, authenticated=%v", len(pt), ok))
+		}
+		c.Count(id, true, "stream:source-reuse")
+	}
+}
+
+// cipherLooksLikeHeader: a read is waiting on a plaintext connection when pair-verify negotiates the session; what arrives
+// next is the controller's first encrypted frame. Ciphertext is arbitrary bytes: here it is chosen (by searching over
+// requests) to contain an empty line — "\n\n", "\r\n\r\n" — the end of a plaintext request header. It must be decrypted
+// and delivered like every other frame; nothing may look at it as text.
+func cipherLooksLikeHeader(c *Ctx, who string) {
+	for i := 0; i < c.Pick(3, 30); i++ {
+		id := c.CaseID("cipher-header", i)
+		if c.Skip(id) {
+			continue
+		}
+		r := c.CaseRng("cipher-header", i)
+		var key [32]byte
+		copy(key[:], randBytes(r, 32))
+		var request, frame []byte
+		marker := [][]byte{[]byte("\n\n"), []byte("\r\n\r\n"), []byte("\n\r\n")}[i%3]
+		for try := 0; try < 200000 && frame == nil; try++ {
+			p := newRefControllerSession(key[:])
+			req := []byte(fmt.Sprintf("PUT /characteristics HTTP/1.1\r\nHost: x\r\nContent-Length: 900\r\n\r\n{\"characteristics\":[{\"aid\":1,\"iid\":%d,\"value\":1}]}%s", try, bytes.Repeat([]byte(" "), 850)))
+			if f := p.Encrypt(req[:1000]); bytes.Contains(f, marker) {
+				request, frame = req[:1000], f
+			}
+		}
+		if frame == nil {
+			continue
+		}
+		raw := newHoConn()
+		ctx := hap.NewContextForSecuredDevice(nil)
+		conn := hap.NewConnection(raw, ctx)
+		sess := ctx.GetSessionForConnection(raw)
+		sec, _ := crypto.NewSecureSessionFromSharedKey(key)
+		type rd struct {
+			b   []byte
+			err error
+		}
+		done := make(chan rd, 1)
+		go func() {
+			buf := make([]byte, 4096)
+			n, err := conn.Read(buf)
+			done <- rd{buf[:n], err}
+		}()
+		select {
+		case <-raw.started:
+		case <-time.After(2 * time.Second):
+		}
+		sess.SetCryptographer(sec)
+		responseWritten(ctx, raw)
+		raw.push(frame)
+		in := map[string]interface{}{"read_waiting_when_the_cryptographer_is_negotiated": true, "read_buffer": 4096,
+			"first_encrypted_frame": fmt.Sprintf("%d bytes of ciphertext that contain %q", len(frame), marker)}
+		select {
+		case x := <-done:
+			if x.err != nil || !bytes.Equal(x.b, request) {
+				c.Violate(who+" bytes sent by the controller under the newly negotiated session do not arrive decrypted (read was already waiting; the ciphertext contains an empty line)", id, in,
+					fmt.Sprintf("%d request bytes", len(request)), fmt.Sprintf("%d bytes err=%v", len(x.b), x.err))
+			}
+		case <-time.After(4 * time.Second):
+			c.Violate(who+" read on the connection does not return after bytes arrived", id, in, "request bytes", "timeout")
+		}
+		raw.Close()
+		c.Count(id, true, "stream:cipher-header")
 	}
 }
